@@ -44,6 +44,10 @@ func main() {
 		cmdC11(seed, tier, outdir)
 	case "c04":
 		cmdC04(seed, tier, outdir)
+	case "c12":
+		cmdC12(seed, tier, outdir)
+	case "c19":
+		cmdC19(seed, tier, outdir, os.Args[5])
 	case "c01":
 		cmdC01(seed, tier, outdir)
 	case "c0203":
